@@ -607,14 +607,16 @@ func fix128BigIntToUFix64(
 	bigInt *big.Int,
 ) UFix64Value {
 
-	if bigInt.Cmp(fixedpoint.UFix64TypeMaxScaledTo128) > 0 {
-		panic(&OverflowError{})
-	} else if bigInt.Cmp(fixedpoint.UFix64TypeMinScaledTo128) < 0 {
-		panic(&UnderflowError{})
-	}
-
 	// Truncate toward zero, instead of rounding toward negative infinity.
 	bigInt = bigInt.Quo(bigInt, fixedpoint.Fix64ToFix128FactorAsBigInt)
+
+	// Check the bounds after truncating: a value which exceeds the bounds
+	// by less than the precision of the target type truncates to the bound.
+	if bigInt.Sign() < 0 {
+		panic(&UnderflowError{})
+	} else if !bigInt.IsUint64() {
+		panic(&OverflowError{})
+	}
 
 	return NewUFix64Value(
 		memoryGauge,
